@@ -15,7 +15,8 @@ from discopy.quantum.circuit import (
     Functor, Id, bit, qubit, Discard, Measure)
 from discopy.quantum.gates import (
     ClassicalGate, QuantumGate, Bits, Bra, Ket,
-    Swap, Scalar, MixedScalar, GATES, X, Rx, Rz, CRz, format_number)
+    Swap, Scalar, MixedScalar, GATES, SWAP, Controlled, X, Rx, Rz, CRz,
+    format_number)
 
 
 class Circuit(tk.Circuit):
@@ -281,9 +282,13 @@ def from_tk(tk_circuit):
             return Rz(tk_gate.op.params[0] / 2)
         if name == 'CRz':
             return CRz(tk_gate.op.params[0] / 2)
+        if name == 'SWAP':
+            return SWAP
         for gate in GATES:
             if name == gate.name:
                 return gate
+            if name == 'C' + gate.name:
+                return Controlled(gate)
         raise NotImplementedError
 
     def make_units_adjacent(tk_gate):
